@@ -25,7 +25,11 @@ def _writeSinglePotential(pot, minr, maxr, gridPoints, out):
   print(u"", file=sbuild)
   #Write the body of the potential
   for n in range(1,gridPoints+1):
-    r = minr + float(n-1)* (maxr - minr) / (float(gridPoints) -1)
+    if gridPoints == 1:
+      # a single row (nr = 2): minr == maxr == cutoff
+      r = minr
+    else:
+      r = minr + float(n-1)* (maxr - minr) / (float(gridPoints) -1)
     energy = pot.energy(r)
     force = pot.force(r)
 
